@@ -35,6 +35,16 @@ def main : IO UInt32 := do
       if hb ≤ t ∧ t < 2 * hb then none
       else some s!"election timeout: hbTimeout={hb}ns draw x={x}: timer armed with {t}ns, outside [{hb}, {2*hb})"
   if let some s := c3 then IO.println s!"COUNTEREXAMPLE election_timeout_range {s}"; found := true
+  -- claim 5: the write deadline covers the declared bandwidth
+  let sizes : List Nat := [262144, 1048576, 65536, 4096, 100000000]
+  let bws : List Nat := [16384, 262144, 1048576, 268435456]
+  let c5 := findFirst hbs fun hb => findFirst bws fun bw => findFirst sizes fun size =>
+      let a := Gen.deadlineArgs bw size
+      let t := durationFor a.1 a.2
+      let w := if t < Gen.deadlineFloor hb then Gen.deadlineFloor hb else t
+      if size * 1000000000 / bw ≤ w ∧ 2 * hb ≤ w then none
+      else some s!"write deadline: Options.Bandwidth={bw}B/s payload={size}B hbTimeout={hb}ns: deadlineSize allows {w}ns, the declared bandwidth needs {size * 1000000000 / bw}ns"
+  if let some s := c5 then IO.println s!"COUNTEREXAMPLE write_deadline_covers_declared_bandwidth {s}"; found := true
   -- claim 4: constants
   if Gen.failureWait ≠ failureWait ∨ Gen.maxFailureScale ≠ maxFailureScale then
     IO.println s!"COUNTEREXAMPLE constants_agree util.go failureWait={Gen.failureWait} maxFailureScale={Gen.maxFailureScale}, model {failureWait} {maxFailureScale}"
